@@ -99,9 +99,11 @@ def body(run):
         # objects that live on (PackCodec part 5): two live packs / containers in every interleaving, write / change /
         # write again; refuted: a compressor and a writer that hand out a view of one re-used buffer, a writer that
         # keeps what it sent last and refreshes it only from a non-zero field
-        run.mc("MC_PackLife", cfg="MC_PackLife_thorough.cfg" if th else "MC_PackLife.cfg", workers=w, coverage=not th)
-        if not th and run.mc_runs[-1].get("actions_never_taken"):
-            raise vf.MachineryError("MC_PackLife: actions never taken: %s" % run.mc_runs[-1]["actions_never_taken"])
+        run.mc("MC_PackLife", cfg="MC_PackLife_thorough.cfg" if th else "MC_PackLife.cfg", workers=w)
+        if th:   # vacuity (coverage instrumentation is slow: the small configuration)
+            run.mc("MC_PackLife", cfg="MC_PackLife.cfg", workers=2, coverage=True)
+            if run.mc_runs[-1].get("actions_never_taken"):
+                raise vf.MachineryError("MC_PackLife: actions never taken: %s" % run.mc_runs[-1]["actions_never_taken"])
         run.mc("MC_PackLife", cfg="MC_PackLife_pooled.cfg", expect_violation="ZipLaw", workers=2)
         run.mc("MC_PackLife", cfg="MC_PackLife_pooled_bytes.cfg", expect_violation="Stable", workers=2)
         run.mc("MC_PackLife", cfg="MC_PackLife_stale.cfg", expect_violation="CarriedRestored", workers=2)
